@@ -33,12 +33,16 @@ ASSUME = ["hop-by-hop ids are unique per connection among requests in flight; eq
 
 def world_cfg(case):
     peers = [{"name": f"peer{i + 1}.example", "ip": [f"10.1.1.{i + 1}"]} for i in range(3)]
+    if case.get("out0"):
+        # peer1 is dialled by the node (persistent); it may spell its own name in another case
+        peers[0].update(persistent=True, reconnect_wait=1)
     kind = case.get("app_kind", "basic")
     app = {"app_id": 4, "auth": True, "peers": [0, 1, 2], "kind": kind,
            "handler": "hold" if kind == "basic" else "slow", "max_threads": 0}
     return {"peers": peers, "apps": [app], "sched_seed": case.get("seed", 0), "yield_all": case.get("yield_all", False),
             "policy": "random" if case.get("seed", 0) % 2 else "fifo",
-            "node_timers": {"idle": 5000, "dwa": 50, "cer": 50, "cea": 50, "wakeup": 3}}
+            "default_dial": "ok",
+            "node_timers": {"idle": 5000, "dwa": 50, "cer": 50, "cea": 50, "wakeup": 1 if case.get("out0") else 3}}
 
 
 def evaluate(case) -> Result:
@@ -51,8 +55,24 @@ def evaluate(case) -> Result:
         npeers = case.get("npeers", 2)
         conns = {}                  # peer index -> current Conn
         gen = {}                    # peer index -> connection generation
+        names = {i: f"peer{i + 1}.example" for i in range(3)}
+        if case.get("out0"):
+            names[0] = case.get("name0", "Peer1.Example")      # case-insensitively the configured identity
+
+        def establish(i):
+            if i == 0 and case.get("out0"):
+                for _ in range(4):
+                    cands = [c for c in w.conns if c.remote.direction == "out" and not c.node_closed and not c.peer_closed
+                             and c.host is None]
+                    if cands:
+                        c = cands[-1]
+                        w.answer_cer(c, 2001, auth=(4,), host=names[0])
+                        return c
+                    w.advance(1)
+                return None
+            return w.handshake_in(names[i], auth=[4], ip=f"10.1.1.{i + 1}", hbh=0x100 + i + 8 * len(w.conns))
         for i in range(npeers):
-            conns[i] = w.handshake_in(f"peer{i + 1}.example", auth=[4], ip=f"10.1.1.{i + 1}", hbh=0x100 + i)
+            conns[i] = establish(i)
             gen[i] = 0
         reqs = []                   # dicts: peer, gen, conn, hbh, e2e, rec (requests_seen entry), submitted, fault_between
         e2e = [0x5000]
@@ -130,7 +150,7 @@ def evaluate(case) -> Result:
                     continue
                 e2e[0] += 1
                 n_seen = len(w.requests_seen)
-                w.feed_msg(c, {"k": "REQ", "host": f"peer{pi + 1}.example", "hbh": hbh, "e2e": e2e[0]})
+                w.feed_msg(c, {"k": "REQ", "host": names[pi], "hbh": hbh, "e2e": e2e[0]})
                 if threading_app:
                     w.run()
                 new = [r for r in w.requests_seen[n_seen:] if r["hbh"] == hbh and r["e2e"] == e2e[0]]
@@ -160,7 +180,7 @@ def evaluate(case) -> Result:
                     continue
                 if any(r["conn"] is c and not r["submitted"] for r in reqs):
                     nontrivial = True
-                host = f"peer{pi + 1}.example"
+                host = names[pi]
                 if fk == "eof":
                     w.peer_close(c)
                 elif fk == "reset":
@@ -172,7 +192,7 @@ def evaluate(case) -> Result:
                 elif fk == "reconnect":
                     w.peer_close(c)
                     gen[pi] += 1
-                    conns[pi] = w.handshake_in(host, auth=[4], ip=f"10.1.1.{pi + 1}", hbh=0x140 + len(w.conns))
+                    conns[pi] = establish(pi)
             elif kind == "ADV":
                 w.advance(ev[1])
             # threading application: answers are submitted by worker threads on their own
@@ -207,7 +227,8 @@ def evaluate(case) -> Result:
         if cross:
             res.classes.append("cross:thread-died")
         res.nontrivial = nontrivial
-        res.classes += [f"npeers:{npeers}", f"app:{case.get('app_kind', 'basic')}", f"reqs:{min(len(reqs), 4)}"]
+        res.classes += [f"npeers:{npeers}", f"app:{case.get('app_kind', 'basic')}", f"reqs:{min(len(reqs), 4)}",
+                        f"out0:{bool(case.get('out0'))}"]
         for ev in case["events"]:
             if ev[0] == "FAULT":
                 res.classes.append(f"fault:{ev[2]}")
@@ -305,6 +326,7 @@ def shard_main(shard, nshards, tier, scale):
     @st.composite
     def cases(draw):
         return {"npeers": draw(st.integers(1, 3)), "app_kind": draw(st.sampled_from(["basic", "basic", "threading"])),
+                "out0": draw(st.booleans()), "name0": draw(st.sampled_from(["peer1.example", "Peer1.Example", "PEER1.EXAMPLE"])),
                 "seed": draw(st.integers(0, 7)), "yield_all": draw(st.booleans()),
                 "slow": draw(st.lists(st.integers(1, 4), min_size=1, max_size=4)),
                 "events": [list(e) for e in draw(st.lists(ev, min_size=1, max_size=16))]}
@@ -326,6 +348,7 @@ def shard_main(shard, nshards, tier, scale):
                     ev_.append(["FAULT", 0, fk])
                 ev_ += [["SUBMIT", 0], ["SUBMIT", 0], ["SUBMIT_AGAIN", 0]]
                 jobs.append({"npeers": npeers, "app_kind": "basic", "events": ev_})
+                jobs.append({"npeers": npeers, "app_kind": "basic", "events": ev_, "out0": True, "name0": "Peer1.Example"})
     for case in jobs[shard::nshards]:
         res = evaluate(case)
         res.classes.append("fault-grid")
@@ -339,7 +362,7 @@ def run(tier, scale=1.0):
     for d in hyp.pool_run(shard_main, (tier, scale)):
         rec.merge(d)
     required = {"schedule-exploration": 1, "deviations:2": 1, "npeers:3": 1, "app:threading": 1, "fault:eof": 1, "fault:reset": 1, "fault:dpr": 1,
-                "fault:reconnect": 1, "double-submission": 1, "equal-hbh-two-conns": 1, "reqs:4": 1}
+                "fault:reconnect": 1, "out0:True": 1, "double-submission": 1, "equal-hbh-two-conns": 1, "reqs:4": 1}
     return finish(rec, tier=tier, level="exploration", rule=RULE, assumptions=ASSUME, t0=t0,
                   required_classes=required)
 
